@@ -50,6 +50,47 @@ def fault_life(root: str, kind: str, ds, tables) -> None:
     os._exit(0)
 
 
+def shortwrite_life(root: str, kind: str, ds, tables) -> None:
+    """one os.write() on a file of the given kind is SHORT (the kernel accepts only half of the buffer and
+    says so): the published file must still be complete, or the operation must fail - never a truncated file
+    behind an advanced pointer"""
+    pat = {"metadata": ".metadata.json", "manifest_list": "manifest_list_", "manifest": ".manifest_",
+           "hint": "version-hint", "marker": ".inflight"}[kind]
+    real_write = os.write
+    state = {"armed": False, "fired": 0}
+
+    def write(fd, data):
+        if state["armed"] and not state["fired"] and len(data) > 1:
+            try:
+                p = os.readlink(f"/proc/self/fd/{fd}")
+            except OSError:
+                p = ""
+            if pat in p and (kind not in ("manifest", "manifest_list") or ".inflight" not in p) \
+                    and (kind != "manifest" or "manifest_list_" not in p):
+                state["fired"] = 1
+                real_write(2, b"MARK fault_fired\n")
+                return real_write(fd, bytes(data)[: len(data) // 2])
+        return real_write(fd, data)
+
+    os.write = write
+    mark("create")
+    t = ds.create_table(root, schema=tables.std_schema())
+    mark("append")
+    t.append_records(tables.rows([1, 2]))
+    state["armed"] = True
+    mark("append_with_short_write")
+    try:
+        t.append_records(tables.rows([3, 4]))
+        mark("faulted_append_ACKED")
+    except Exception as e:  # noqa
+        mark("faulted_append_RAISED " + type(e).__name__)
+    state["armed"] = False
+    mark("append_after_fault")
+    ds.load_table(root).append_records(tables.rows([5]))
+    mark("end")
+    os._exit(0)
+
+
 def main() -> None:
     root = sys.argv[1]
     variant = sys.argv[2] if len(sys.argv) > 2 else "a"
@@ -61,6 +102,8 @@ def main() -> None:
 
     if variant.startswith("fault:"):
         return fault_life(root, variant.split(":", 1)[1], ds, tables)
+    if variant.startswith("shortwrite:"):
+        return shortwrite_life(root, variant.split(":", 1)[1], ds, tables)
 
     mark("create")
     t = ds.create_table(root, schema=tables.std_schema())
